@@ -43,6 +43,7 @@ def retry_ids(ctx: Ctx, rule: str) -> None:
     views = function_views(ctx, T.RTN, names_interesting({"prefix", "shared_results", "id_test", "uid", "run_test_task", "results", "sleep"}),
                            roles=["node", "status_timeout"])
     n, problems = 0, []
+    n_retry = 0
     for v in views:
         aws = [i for i, _ in v.awaits()]
         if not aws:
@@ -62,6 +63,7 @@ def retry_ids(ctx: Ctx, rule: str) -> None:
         nonempty = norm.formula(ast.parse("len(node.shared_results) > 0", mode="eval").body)
         retried = any(st.kind == "cond" and norm.implies(v.cond_formula(k), nonempty) for k, st in enumerate(v.steps))
         if retried:
+            n_retry += 1
             if len(pre) != 1:
                 problems.append(("a retried execution reads its uid without first extending the prefix", v))
             else:
@@ -76,6 +78,8 @@ def retry_ids(ctx: Ctx, rule: str) -> None:
             post = [(i, s) for i, s in stores if i > first_aw]
             if not post or v.canon_text(post[-1][1].value, post[-1][0]) != "node.prefix" and ast.unparse(post[-1][1].value) != "original_prefix":
                 problems.append(("the original prefix is not restored on a normal exit", v))
+    if n_retry == 0 and not problems and views:
+        problems.append(("no path gives a retried execution (run_times > 0) a prefix of its own: retries share the identifier of the first execution", views[0]))
     ctx.expect_sites(rule, n, 2, T.RTN, False, "awaiting path of run_test_node")
     ctx.record(rule, "PROV", T.RTN, "run_times = len(node.shared_results); retried: node.prefix = original + 'r' + run_times; uid read afterwards, before the first await; prefix restored",
                not problems, {"paths": n, **({"path": problems[0][1].path.describe()} if problems else {})},
@@ -267,6 +271,7 @@ def run(ctx: Ctx) -> None:
 NODE = "cartgraph/node.py"
 G = "cartgraph/graph.py"
 MUTANTS = [
+    ("retry-prefix-dropped", "plugins/runner.py", "        if run_times > 0:\n            node.prefix = original_prefix + f\"r{run_times}\"\n", "", "2"),
     ("uid-before-prefix", RUNNER, "        if run_times > 0:\n            node.prefix = original_prefix + f\"r{run_times}\"\n        uid = node.id_test.uid",
      "        uid = node.id_test.uid\n        if run_times > 0:\n            node.prefix = original_prefix + f\"r{run_times}\"", "2"),
     ("own-results-count", RUNNER, "run_times = len(node.shared_results)", "run_times = len(node.results)", "2"),
